@@ -36,6 +36,14 @@ mod c15;
 mod c19;
 #[cfg(feature = "c20")]
 mod c20;
+#[cfg(feature = "c02")]
+mod c02;
+#[cfg(feature = "c16")]
+mod c16;
+#[cfg(feature = "c17")]
+mod c17;
+#[cfg(feature = "c18")]
+mod c18;
 #[cfg(feature = "eng")]
 mod eng;
 mod rng;
@@ -86,6 +94,14 @@ fn main() {
         "C19" => c19::run(seed, std::env::args().nth(3).as_deref() == Some("thorough")),
         #[cfg(feature = "c20")]
         "C20" => c20::run(seed, std::env::args().nth(3).as_deref() == Some("thorough")),
+        #[cfg(feature = "c02")]
+        "C02" => c02::run(seed, std::env::args().nth(3).as_deref() == Some("thorough")),
+        #[cfg(feature = "c16")]
+        "C16" => c16::run(seed, std::env::args().nth(3).as_deref() == Some("thorough")),
+        #[cfg(feature = "c17")]
+        "C17" => c17::run(seed, std::env::args().nth(3).as_deref() == Some("thorough")),
+        #[cfg(feature = "c18")]
+        "C18" => c18::run(seed, std::env::args().nth(3).as_deref() == Some("thorough")),
         _ => {
             eprintln!("no witness search for {pid}");
             0
